@@ -261,6 +261,52 @@ def drive_b(rec, n, full, quick):
     rec.data["scaled"] = scaled
 
 
+def drive_c(rec, quick):
+    """the same exponent p across dimensions inside ONE process (up, then down): a result may not depend on which (N, p) were used before"""
+    rng = random.Random(rec.seed * 77 + 5)
+    L = Lib.get()
+    events = []
+    dims = [2, 4, 8, 16, 64, 256, 1024] if quick else [1, 2, 4, 8, 16, 32, 64, 128, 256, 512, 1024, 2048, 4096]
+    Ws = {n: Wrappers(L, n) for n in dims}
+    for p in ([-1, 3, 5, 9, 12345] if quick else [-1, 1, 3, 5, 7, 9, 17, 31, 12345, -77, (1 << 40) + 1]):
+        for n in dims + dims[::-1]:
+            probe = np.arange(1, n + 1, dtype=np.int64)
+            for kind in ("aut", "rot", "mxp"):
+                groups = {}
+                for (nm, k, ip, dt) in KERNELS:
+                    if k != kind:
+                        continue
+                    if not rec.progress("%s(N=%d,p=%d) in a cross-dimension sequence" % (nm, n, p)):
+                        continue
+                    got = run_kernel(L, nm, ip, dt, n, p, probe)
+                    groups.setdefault(None if got is None else got.tobytes(), []).append(nm)
+                    rec.case(("seq", nm, n, p))
+                for (f, mk, ip) in Ws[n].names(kind):
+                    if mk != "fft64" or not rec.progress("%s[%s,%s](N=%d,p=%d) in a cross-dimension sequence" % (f, mk, ip, n, p)):
+                        continue
+                    got = Ws[n].run(f, mk, ip, p, probe)
+                    groups.setdefault(None if got is None else got.tobytes(), []).append("%s[%s,%s]" % (f, mk, ip))
+                for key, names in groups.items():
+                    if key is None:
+                        rec.violation("%s(N=%d,p=%d) in a cross-dimension sequence: buffer contract broken" % (names, n, p), {"fns": names, "N": n, "p": p})
+                        continue
+                    obs = np.frombuffer(key, dtype=np.int64)
+                    ev = {"e": "Map", "kind": kind, "N": n, "pw": to_words(p), "fns": names, "_p": p}
+                    if n <= 256:
+                        ev["obs"] = [int(v) for v in obs]
+                    else:
+                        idx = sorted(set([0, 1, n // 2 - 1, n // 2, n - 1] + [rng.randrange(n) for _ in range(60)]))
+                        ev["idx"], ev["obs"] = idx, [int(obs[i]) for i in idx]
+                        if not np.array_equal(obs, ref_map_np(kind, n, p, probe)):
+                            rec.violation("%s(N=%d,p=%d) in a cross-dimension sequence differs from the reference map" % (names, n, p),
+                                          {"fns": names, "N": n, "p": p})
+                    events.append(ev)
+    for w in Ws.values():
+        w.close()
+    rec.data["events"] = events
+    rec.data["scaled"] = 0
+
+
 def run(chk, replay=None):
     quick = chk.tier == "quick"
     Lib.get()  # build once, before forking
@@ -301,6 +347,7 @@ def run(chk, replay=None):
     while n <= 65536:
         jobs.append(("observation of the ring maps at N=%d" % n, drive_b, (n, n <= nfull, quick)))
         n *= 2
+    jobs.append(("the same exponents across dimensions in one process", drive_c, (quick,)))
     events, scaled = [], 0
     for d in isolated_many(chk, jobs, timeout=1500, nproc=12):
         if d:
